@@ -494,3 +494,88 @@ def run_first_use(args):
         if problems:
             break
     return {'first_use_runs': runs, 'gates': steps}, problems
+
+
+def _steady_once(k, order):
+    """both threads call ONE compiled function (already used once) on different inputs; thread `order[0]` runs `k` line-steps inside
+    the engine (vm.py / edges.py / graph.py), then the other thread's call runs to completion, then the first one finishes.  The
+    field binds one argument by keyword (explicit `Function(f, 'u', name='v')`) and one positionally"""
+    import sys
+    paths.use_repo()
+    world = SymWorld()
+    src = {'k': 'source', 'cls': 'GS', 'ids': ['a', 'b'], 'fields': {'u': {'args': ['i']}, 'v': {'args': ['i']}}, 'params': {}, 'cargs': {}, 'defaults': {}}
+    t = {'k': 'transform', 'cls': 'GT', 'fields': {'x': {'args': ['p', 'name'], 'posbind': ['u'], 'kwbind': {'name': 'v'}},
+                                                   'y': {'args': ['u', 'v']}},
+         'params': {}, 'cargs': {}, 'defaults': {}, 'inherit': True}
+    layer = Builder(world).layer({'k': 'chain', 'flavour': 'chain', 'layers': [src, t]})
+    fn = layer._compile(('x', 'y'))
+    want = {}
+    for tid, key in ((0, 'a'), (1, 'b')):
+        want[tid] = canon(val_to_json(fn(key), world))      # sequential values (also: the function has been used before)
+    a, b = order
+    schedule = [a] * (k + 1) + [b] * 100000
+    ctrl = Controller(schedule, 2)
+    LockProxy.registry = {}
+    results = {}
+    marks = ('/connectome/engine/vm.py', '/connectome/engine/edges.py', '/connectome/engine/graph.py', '/connectome/engine/utils.py')
+
+    def local(frame, event, arg):
+        if event == 'line':
+            ctrl.gate('line')
+        return local
+
+    def tracer(frame, event, arg):
+        if event == 'call' and frame.f_code.co_filename.endswith(marks):
+            return local
+        return None
+
+    def worker(tid):
+        threading.current_thread().cv_tid = tid
+        ctrl.gate('start')
+        sys.settrace(tracer)
+        try:
+            try:
+                results[tid] = ('ok', canon(val_to_json(fn('a' if tid == 0 else 'b'), world)))
+            except Exception as e:
+                results[tid] = ('err', exc_name(e) + ': ' + str(e)[:80])
+        finally:
+            sys.settrace(None)
+            ctrl.done()
+    threads = [threading.Thread(target=worker, args=(i,), daemon=True) for i in range(2)]
+    for th in threads:
+        th.start()
+    ok = ctrl.drive(threads, timeout=30)
+    for th in threads:
+        th.join(timeout=2)
+    if not ok:
+        return ['the schedule did not complete (deadlock or timeout)'], len(ctrl.trace)
+    problems = []
+    for tid in (0, 1):
+        r = results.get(tid)
+        if r is None or r[0] == 'err':
+            problems.append(f'two threads in one compiled function: thread {tid} got {r[1] if r else "nothing"}; a sequential execution returns the value')
+        elif r[1] != want[tid]:
+            problems.append(f'two threads in one compiled function (cut-in after {k} engine lines): thread {tid} got {r[1][:140]}, a sequential execution returns {want[tid][:140]}')
+    return problems, len(ctrl.trace)
+
+
+def run_steady(args):
+    """a sweep over the engine line at which the second thread's call cuts into the first one's: shard `i` of 16 takes k = i, i + 16, ..."""
+    seed, shard, both = args
+    rng = random.Random(seed)
+    problems, steps, runs = [], 0, 0
+    total = None
+    for k in range(shard, 4000, 16):
+        if total is not None and k > total // 2 + 16:     # the first thread's own call is about half of the gates of a run
+            break
+        for order in ([(0, 1), (1, 0)] if both else [rng.choice([(0, 1), (1, 0)])]):
+            pr, st = _steady_once(k, order)
+            runs += 1
+            steps += st
+            # the trace of a run in which the first thread was never pre-empted inside its call bounds the sweep
+            total = st if total is None else max(total, st)
+            for p in pr:
+                problems.append({'k': k, 'order': order, 'msg': p})
+        if problems:
+            break
+    return {'steady_runs': runs, 'gates': steps}, problems
